@@ -324,7 +324,8 @@ def rule_b(ctx):
                 while cur in env and cur not in seen:
                     seen.add(cur)
                     src_txt = env[cur]
-                    nxt = next((k for k in env if k != cur and (src_txt.startswith(k + ".") or f"({k})" in src_txt)), None)
+                    import re as _re
+                    nxt = next((k for k in env if k != cur and k not in seen and _re.search(rf"(?<![\w.]){_re.escape(k)}\b", src_txt)), None)
                     chain.append(src_txt)
                     if nxt is None:
                         break
